@@ -261,9 +261,9 @@ func bulkScenario(ts [][]string) (string, []string) {
 
 func main() {
 	c := vlib.Init("exploration")
-	alpha := []byte{'a', '-', '\\', 0xFF}
+	alpha := []byte{'a', '-', '\\', 0xFF, ','}
 	if c.Thorough() {
-		alpha = append(alpha, 0x00, ',') // further bytes a key encoding could treat specially
+		alpha = append(alpha, 0x00) // a further byte a key encoding could treat specially
 	}
 	strs := allStrings(alpha, c.Pick(2, 3))
 	// all ordered pairs, arity 1 and 2
@@ -313,9 +313,9 @@ func main() {
 		c.Sample(map[string]interface{}{"arity": arity, "bulk_tuples": len(tl)})
 	}
 	if c.Thorough() {
-		c.Set("alphabet", `a - \ 0xFF 0x00 ,`)
+		c.Set("alphabet", `a - \ 0xFF , 0x00`)
 	} else {
-		c.Set("alphabet", `a - \ 0xFF`)
+		c.Set("alphabet", `a - \ 0xFF ,`)
 	}
-	c.Finish("all ordered pairs of tuples (arity 1-2) of all strings up to the length bound over {a,-,\\,0xFF}: create/find/write/expire/delete A while observing B, then on a fresh store a garbage collection with only B marked and one with A overdue; arity 3-4: all tuples in one metric with ordinals. distinct_nontrivial = ordered pairs of unequal tuples")
+	c.Finish("all ordered pairs of tuples (arity 1-2) of all strings up to the length bound over {a,-,\\,0xFF,','}: create/find/write/expire/delete A while observing B, then on a fresh store a garbage collection with only B marked and one with A overdue; arity 3-4: all tuples in one metric with ordinals. distinct_nontrivial = ordered pairs of unequal tuples")
 }
